@@ -420,12 +420,14 @@ func families(prop string, t gfam.Tier) []*gfam.Grammar {
 		out = append(out, gfam.ParseableFam(t)...)
 		out = append(out, gfam.ElidedExplicit(t)...)
 		out = append(out, gfam.CaptureComposite(t)...)
+		out = append(out, gfam.RecursiveCaptures(t)...)
 	case "C02":
 		out = append(out, gfam.SubProd(t)...)
 		out = append(out, gfam.NegLookDeep(t)...)
 		out = append(out, gfam.ElidedExplicit(t)...) // abandoned alternatives that explicitly matched an elided token
 		out = append(out, gfam.ParseableFam(t)...)
 		out = append(out, gfam.CaptureComposite(t)...)
+		out = append(out, gfam.RecursiveCaptures(t)...)
 	case "C10":
 		out = append(out, gfam.Elision(t)...)
 		out = append(out, gfam.ElidedExplicit(t)...)
